@@ -774,8 +774,9 @@ _orig_build = build_lib
 def build_lib():  # noqa: F811
     lib = _orig_build()
     lib.update(SPEC_LIB)
-    from . import jsonmodel, loops, strings
+    from . import jsonmodel, loops, redis_model, strings
     loops.install(lib)
     strings.install(lib)
     jsonmodel.install(lib)
+    redis_model.install(lib)
     return lib
